@@ -86,6 +86,10 @@ pub fn gen_conv_spec(t: &mut Tape<'_>, o: &ConvOpts) -> CmdSpec {
     }
     let (il, is, ov) = (root.settings.infer_long_args, root.settings.infer_subcommands, root.settings.args_override_self);
     spread(&mut root, il, is, ov);
+    // (a global setting as well; set on the root only, in effect everywhere) values after `--` keep their delimiters
+    if o.delimiters && t.chance(1, 3) {
+        root.settings.dont_delimit_trailing_values = true;
+    }
     root
 }
 
@@ -166,6 +170,8 @@ fn conv_level(t: &mut Tape<'_>, o: &ConvOpts, depth: usize, name: &str) -> CmdSp
                     PvSpec { name: "fast".into(), aliases: vec!["quick".into()], ..Default::default() },
                     PvSpec { name: "slow".into(), aliases: vec![], ..Default::default() },
                     PvSpec { name: "Auto".into(), aliases: vec!["dflt-mode".into(), "A".into()], ..Default::default() },
+                    // hidden from help and error listings, still a member of the language
+                    PvSpec { name: "legacy".into(), aliases: vec!["old".into()], hide: true, ..Default::default() },
                 ]);
                 a.ignore_case = t.bool();
             }
@@ -575,9 +581,19 @@ pub fn gen_invocation(t: &mut Tape<'_>, spec: &CmdSpec, io: &InvOpts) -> Invocat
             for _ in 0..noccs {
                 let n = if multi { t.range(lo.max(1), hi.min(lo.max(1) + 2)) } else { 1 };
                 let mut vals: Vec<Bytes> = Vec::new();
-                for _ in 0..n {
+                for j in 0..n {
+                    // a multi-value positional that is still collecting takes a word spelled like a subcommand
+                    // as its next value (the parser only looks for subcommands outside an open occurrence)
+                    let stringy = matches!(p.parser, ParserSpec::Str | ParserSpec::OsStr);
+                    if multi && j >= 1 && !after_esc && !low_index_layout_spec && stringy && !level.subs.is_empty() && t.chance(1, 5) {
+                        let sc = &level.subs[t.choose(level.subs.len())];
+                        vals.push(sc.name.as_bytes().to_vec());
+                        continue;
+                    }
                     let v = if after_esc {
-                        gen_value(t, ValueKind::Wild, os, &[], p.value_delimiter)
+                        // with dont_delimit_trailing_values the tail is taken verbatim, delimiter characters included
+                        let d = if spec.settings.dont_delimit_trailing_values { None } else { p.value_delimiter };
+                        gen_value(t, ValueKind::Wild, os, &[], d)
                     } else {
                         let mut v = gen_value(t, ValueKind::Safe, os, &subs_avoid, p.value_delimiter);
                         if looks_like_sub(level, &String::from_utf8_lossy(&v)) {
@@ -601,6 +617,24 @@ pub fn gen_invocation(t: &mut Tape<'_>, spec: &CmdSpec, io: &InvOpts) -> Invocat
                 }
             }
         }
+        let mut straddle: Option<String> = None;
+        // a trailing multi-value positional that was still collecting before the marker goes on collecting after it
+        // (one occurrence straddling `--`)
+        if use_escape && !has_last && esc_at == Some(k) && k >= 1 && after.is_empty() && t.chance(1, 2) {
+            if let Some(p) = pos.iter().filter(|p| !p.last).nth(k - 1) {
+                let (_, hi) = p.value_range();
+                let have: usize = before.iter().map(|o| if let Occ::Pos { arg, values } = o { if *arg == p.id { values.len() } else { 0 } } else { 0 }).sum();
+                let is_last_in_order = pos.iter().filter(|q| !q.last).count() == k;
+                if hi > 1 && have >= 1 && have < hi && is_last_in_order {
+                    let os = p.parser == ParserSpec::OsStr;
+                    let d = if spec.settings.dont_delimit_trailing_values { None } else { p.value_delimiter };
+                    let n = t.range(1, (hi - have).min(3));
+                    let vals = (0..n).map(|_| gen_value(t, ValueKind::Wild, os, &[], d)).collect();
+                    after.push(Occ::Pos { arg: p.id.clone(), values: vals });
+                    straddle = Some(p.id.clone());
+                }
+            }
+        }
         if let (Some(lp), true) = (pos.iter().find(|p| p.last), use_escape) {
             if lp.required || t.chance(2, 3) {
                 // only reachable after the escape marker and only when every earlier positional is
@@ -608,7 +642,8 @@ pub fn gen_invocation(t: &mut Tape<'_>, spec: &CmdSpec, io: &InvOpts) -> Invocat
                 let os = lp.parser == ParserSpec::OsStr;
                 let (lo, hi) = lp.value_range();
                 let n = if hi > 1 { t.range(lo.max(1), hi.min(lo.max(1) + 2)) } else { 1 };
-                let vals = (0..n).map(|_| gen_value(t, ValueKind::Wild, os, &[], lp.value_delimiter)).collect();
+                let d = if spec.settings.dont_delimit_trailing_values { None } else { lp.value_delimiter };
+                let vals = (0..n).map(|_| gen_value(t, ValueKind::Wild, os, &[], d)).collect();
                 // values placed after `--` jump straight to the `last` positional: nothing else may follow the marker
                 after.clear();
                 after.push(Occ::Pos {
@@ -675,6 +710,13 @@ pub fn gen_invocation(t: &mut Tape<'_>, spec: &CmdSpec, io: &InvOpts) -> Invocat
                 }
             }
             merged.push(o);
+        }
+        if let Some(id) = &straddle {
+            // only an occurrence that is still open (nothing between its values and the marker) continues after `--`
+            if let Some(i) = merged.iter().rposition(|o| matches!(o, Occ::Pos { arg, .. } if arg == id)) {
+                let o = merged.remove(i);
+                merged.push(o);
+            }
         }
         if use_escape {
             merged.push(Occ::Escape);
